@@ -64,6 +64,8 @@ pub trait Shapes {
     fn ret_ref(&self) -> &u64;
     fn cb(&self, cb: OpaqueCallback<u32>);
     fn it(&self, it: CIterator<u32>);
+    #[int_result]
+    fn int_res(&self, v: u32) -> Result<u32, std::io::Error>;
 }
 impl Shapes for Imp {
     fn sl_u8(&self, s: &[u8]) { let r = self.r(1); r.ptr = s.as_ptr() as usize; r.len = s.len(); if r.idx < s.len() { r.elem = s[r.idx] as u64; } }
@@ -86,6 +88,7 @@ impl Shapes for Imp {
     fn ret_mut_slice(&mut self) -> &mut [u8] { let (o, l) = { let r = self.r(18); (r.roff, r.rlen) }; &mut self.buf[o..o + l] }
     fn ret_ref(&self) -> &u64 { let _ = self.r(19); &self.cell }
     fn cb(&self, mut cb: OpaqueCallback<u32>) { let r = self.r(20); let a = cb.call(r.wval as u32); let b = if a { cb.call(r.out_payload as u32) } else { false }; r.variant = a as u8 | (b as u8) << 1; }
+    fn int_res(&self, v: u32) -> Result<u32, std::io::Error> { let r = self.r(22); r.payload = v as u64; if r.out_variant == 0 { Ok(r.out_payload as u32) } else { Err(std::io::Error::from_raw_os_error(r.wval as i32)) } }
     fn it(&self, mut it: CIterator<u32>) { let r = self.r(21); let a = it.next(); let b = it.next(); let c = it.next(); r.variant = a.is_some() as u8 + b.is_some() as u8 + c.is_some() as u8; r.payload = a.unwrap_or(0) as u64 | (b.unwrap_or(0) as u64) << 32; }
 }
 
